@@ -687,6 +687,12 @@ impl TimeZoneProvider for FsTzdbProvider {
         identifier: &str,
         utc_epoch: i128,
     ) -> TemporalResult<TimeZoneOffset> {
+        // NOTE: The rule evaluation works on 64 bit seconds; instants far outside of the
+        // supported range (the trait takes any i128) cannot be represented there.
+        if utc_epoch.abs() > crate::NS_MAX_INSTANT + 2 * i128::from(crate::NS_PER_DAY) {
+            return Err(TemporalError::range()
+                .with_message("Instant nanoseconds are not within a valid epoch range."));
+        }
         let tzif = self.get(identifier)?;
         let seconds = utc_epoch.div_euclid(1_000_000_000) as i64;
         tzif.get(&Seconds(seconds))
